@@ -215,6 +215,37 @@ func runStoreHeldCase(o *out, r *rand.Rand) {
 	o.pf("END\n")
 }
 
+// runStoreRawCase: the bucket also holds values that Put never wrote (shorter than the 8-byte version header): the prefix
+// scan must skip them ("if len(v) < 8 { continue }") and still answer with the newest real packet.
+func runStoreRawCase(o *out) {
+	m := newStore("m")
+	b := newStore("b")
+	defer m.close()
+	defer b.close()
+	o.pf("STORE\n")
+	prefix := enc.Name{enc.NewStringComponent(enc.TypeGenericNameComponent, "raw")}
+	nm := func(i uint64) enc.Name { return append(append(enc.Name{}, prefix...), enc.NewVersionComponent(i)) }
+	put := func(i uint64) {
+		w := []byte{0xaa, byte(i)}
+		o.pf("PUT %s %d %s\n", nameStr(nm(i)), i, hx(w))
+		m.st.Put(nm(i), i, w)
+		b.st.Put(nm(i), i, w)
+	}
+	put(3)
+	for _, i := range []uint64{1, 5, 9} { // foreign short values before, between and after the real ones
+		raw := make([]byte, int(i)%8)
+		o.pf("PUTRAW %s %s\n", nameStr(nm(i)), hx(raw))
+		if err := b.bolt.VerifPutRaw(nm(i), raw); err != nil {
+			o.pf("BAD putraw %v\n", err)
+		}
+	}
+	put(7)
+	wm, _ := m.st.Get(prefix, true)
+	wb, _ := b.st.Get(prefix, true)
+	o.pf("GET %s 1 %s %s\n", nameStr(prefix), optHex(wm), optHex(wb))
+	o.pf("END\n")
+}
+
 func TestStoreTrace(t *testing.T) {
 	r := newRand()
 	n := envInt("VERIF_N", 40)
@@ -224,6 +255,7 @@ func TestStoreTrace(t *testing.T) {
 		runStoreCapCase(o, c)
 	}
 	runStoreHeldCase(o, r)
+	runStoreRawCase(o)
 	for i := 0; i < n; i++ {
 		runStoreCase(o, r, 10+r.Intn(60))
 	}
